@@ -151,9 +151,17 @@ def run(tier, seed):
                     report_alarms(V, r, cfg)
         except Broken as e:
             V.broke("%s: %s" % (cfg, e))
+    # the long long / unsigned long long spellings of the 64-bit operand are distinct types on LP64: same programs as int64_t / uint64_t
+    from . import spell
+    for cfg_ in (configs[:1] if tier == "quick" else configs):
+        try:
+            spell.check(V, cfg_, "div", "fixed_division")
+        except Broken as e:
+            V.broke("spellings %s: %s" % (cfg_, e))
     expl = ("fixed/fixed with finite operands: the box b == 0 returns the NaN constant; every other NaN-returning path has |a| >= 2^47 raw "
             "(|a| >= 2^31); every non-NaN path returns the value-numbered truncating quotient sdiv(N, b) whose dividend form is exactly 65536*a "
             "(no dividend bits dropped) and whose divisor form is b, hence |result - 2^16*a/b| < 1; no division trap (INT64_MIN / -1, /0) is "
             "reachable. fixed/integer for the 8 carriers and /=: n == 0 gives NaN, every other divisor value gives sdiv(a, n) with n the "
             "mathematical operand value (0 for a 64 bit unsigned divisor above 2^63).")
+    expl = expl + ' The `long long` / `unsigned long long` spellings of a 64-bit integral operand (distinct types on LP64) are compared with the int64_t / uint64_t wrappers by summary equivalence; spellings the library does not compile for are listed in the evidence as not defined.'
     return V.finish("proof", expl, "./fx check C03 --tier %s" % tier, extra={"configs": configs, "wrappers": nw})
